@@ -368,17 +368,9 @@ func hashString(s string) uint32 {
 
 // ---------------------------------------------------------------- integer ranges
 
-var (
-	pow2cache = map[int]*big.Int{}
-)
-
+// pow2 returns 2^n (a fresh value: checks may run concurrently, no shared cache).
 func pow2(n int) *big.Int {
-	if v, ok := pow2cache[n]; ok {
-		return v
-	}
-	v := new(big.Int).Lsh(big.NewInt(1), uint(n))
-	pow2cache[n] = v
-	return v
+	return new(big.Int).Lsh(big.NewInt(1), uint(n))
 }
 
 func smtInt(v *big.Int) string {
